@@ -131,12 +131,13 @@ class PostOffice:
                 topic = topic[0]
             else:
                 # Multi-output producer, recurse
-                for sub_topic in topic:
-                    # if sub_topic is already registered as loader,
-                    # we can not handle it as _multi_output_topics
-                    if sub_topic not in registered:
-                        self._multi_output_topics[sub_topic] = topic
-                        self.register_producer(iterator, sub_topic)
+                # if sub_topic is already registered as loader,
+                # we can not handle it as _multi_output_topics: it is fed (and
+                # exhausted) by its own producer, not by this one
+                own_topics = tuple(t for t in topic if t not in registered)
+                for sub_topic in own_topics:
+                    self._multi_output_topics[sub_topic] = own_topics
+                    self.register_producer(iterator, sub_topic)
                 return
         assert isinstance(topic, str)
         if topic in self._producers:
